@@ -165,6 +165,8 @@ def continua(draw, labels=LABELS_ABC, min_ann=2, max_ann=5, budget=1200, max_per
                 units.append([a, s, e, lab()])
     elif shape == "identical":
         k = min([c for c in counts if c > 0] or [1])
+        while k > 1 and (k + 1) ** n > budget:
+            k -= 1
         proto = []
         for _ in range(k):
             s = draw(dyadic(0, span))
